@@ -1,5 +1,5 @@
 (* Proofs about Model/Prices.v. *)
-From LedgerV Require Import Base.Prelude Gen.PriceMemo Gen.CostDate Model.Prices.
+From LedgerV Require Import Base.Prelude Gen.PriceMemo Gen.CostDate Gen.PercentExpr Model.Prices.
 From Coq Require Import Permutation.
 Local Open Scope Z_scope.
 
@@ -954,3 +954,26 @@ Lemma cost_entry_ignores_posting_dates xp xa pp pa pp' pa' aq ac total cq cc vir
   entry_of (ICost (mkDates xp xa pp pa) aq ac total cq cc virt) =
   entry_of (ICost (mkDates xp xa pp' pa') aq ac total cq cc virt).
 Proof. unfold entry_of, entry_of_with. rewrite cost_dated_by_xact. reflexivity. Qed.
+
+(* ------------------------------------------------------------------ --percent *)
+(* the source fact (regenerated from report.cc): numerator and denominator of a share are both
+   valued with the valuation date and the -X commodity *)
+Lemma percent_calls_targeted :
+  percent_numerator_targeted = true /\ percent_denominator_targeted = true /\
+  immediate_amount_targeted = true.
+Proof. repeat split; reflexivity. Qed.
+
+(* a share is the quotient of two valuations made by the SAME rule (same target, same date) *)
+Lemma percent_row_same_rule l held pheld tgt D :
+  percent_row l held pheld tgt D = percent_of (bal_row l held tgt D) (bal_row l pheld tgt D).
+Proof.
+  unfold percent_row. destruct percent_calls_targeted as (-> & -> & _). reflexivity.
+Qed.
+
+Lemma percent_row_quotient l held pheld t D cn qn cd qd :
+  bal_row l held (Some t) D = [(cn, qn)] -> bal_row l pheld (Some t) D = [(cd, qd)] ->
+  exists q, percent_row l held pheld (Some t) D = PVal q /\ (q == 100 * qn / qd)%Q.
+Proof.
+  intros Hn Hd. rewrite percent_row_same_rule, Hn, Hd. cbn [percent_of].
+  eexists. split; [reflexivity | apply Qred_correct].
+Qed.
